@@ -160,6 +160,119 @@ else:
 '''
 
 
+class ConcApiScn:
+    """two threads of one process using the module-level API (dumps / loads / dump / load) at the same
+    time: every result is byte-exact / value-exact whatever the interleaving inside the serializer"""
+
+    VALS = [[1, "a" * 3, (2.5, None)], {"k": [b"zz", True], "j": -7}]
+
+    @staticmethod
+    def scenario(w, P):
+        import io
+
+        import execnet
+
+        S = Session(w, "popen", "thread")
+
+        def main():
+            w.exploring = True
+
+            def user(i):
+                v = ConcApiScn.VALS[i]
+                try:
+                    if P["api"] == "dumps":
+                        a = execnet.dumps(v)
+                        r = execnet.loads(a)
+                    else:
+                        f = io.BytesIO()
+                        execnet.dump(f, v)
+                        a = f.getvalue()
+                        f.seek(0)
+                        r = execnet.load(f)
+                    w.observe("res", i, a, E.same(r, v))
+                except BaseException as e:  # noqa: BLE001
+                    w.observe("exc", i, type(e).__name__, str(e)[:100])
+
+            for i in range(2):
+                S.user(user, f"api{i}", (i,))
+            S.join_users()
+            w.exploring = False
+            w.observe("joined")
+
+        S.main(main)
+        return S
+
+    @staticmethod
+    def oracle(w, S, P):
+        obs = w.obs
+        if ("joined",) not in obs:
+            return ("c12:concurrent-api-hang", f"obs={obs} blocked={w.blocked_at_end}"), 0
+        for e in obs:
+            if e[0] == "exc":
+                return ("c12:concurrent-api-exception", f"{e}"), 0
+            if e[0] == "res" and (e[2] != R.encode(ConcApiScn.VALS[e[1]]) or not e[3]):
+                return ("c12:concurrent-api-bytes", f"thread {e[1]}: dumps() while another thread was serialising produced {e[2]!r}, format 2 says {R.encode(ConcApiScn.VALS[e[1]])!r} (loads gave the value back: {e[3]})"), 0
+        return None, 1
+
+
+SCENARIOS = {"concapi": ConcApiScn}
+
+
+def api_histories(rep, depth):
+    """every sequence of up to `depth` module-level API calls (succeeding and failing ones): each call's
+    result must be what the same call gives on a fresh interpreter state, i.e. the reference codec's"""
+    import io
+
+    import execnet
+
+    class Unsupported:
+        pass
+
+    good = [42, [1, "x"], {"k": (b"b", None)}]
+    bad = [[1, 2, Unsupported()], {"k": (1, Unsupported())}, (Unsupported(),)]
+    good_streams = [R.encode(v) for v in good]
+    bad_streams = [R.encode([1, "x"])[:-3], b"\x02" + b"~", b"\x03" + R.encode(1)[1:]]
+    ops = []
+    for i, v in enumerate(good):
+        ops.append((f"dumps(good{i})", lambda v=v: execnet.dumps(v), R.encode(v)))
+    for i, v in enumerate(bad):
+        ops.append((f"dumps(bad{i})", lambda v=v: execnet.dumps(v), execnet.DumpError))
+    for i, (s, v) in enumerate(zip(good_streams, good)):
+        ops.append((f"loads(good{i})", lambda s=s: execnet.loads(s), v))
+    for i, s in enumerate(bad_streams):
+        ops.append((f"loads(bad{i})", lambda s=s: execnet.loads(s), EOFError if i == 0 else execnet.DataFormatError))
+
+    def dump_to_stream(v):
+        f = io.BytesIO()
+        execnet.dump(f, v)
+        return f.getvalue()
+
+    ops.append(("dump(f, good1)", lambda: dump_to_stream(good[1]), R.encode(good[1])))
+    ops.append(("dump(f, bad0)", lambda: dump_to_stream(bad[0]), execnet.DumpError))
+    ops.append(("load(f good2)", lambda: execnet.load(io.BytesIO(good_streams[2])), good[2]))
+    n = 0
+    for d in range(1, depth + 1):
+        for seq in itertools.product(range(len(ops)), repeat=d):
+            n += 1
+            for k in seq:
+                name, fn, want = ops[k]
+                try:
+                    got = fn()
+                except Exception as e:  # noqa: BLE001
+                    got = e
+                if isinstance(want, type) and issubclass(want, Exception):
+                    ok = isinstance(got, want)
+                elif isinstance(want, bytes):
+                    ok = type(got) is bytes and got == want
+                else:
+                    ok = not isinstance(got, Exception) and E.same(got, want)
+                if not ok:
+                    hist = " ; ".join(ops[j][0] for j in seq)
+                    rep.violation("c12:api-history", f"in the call history [{hist}] the call {name} gave {got!r:.120}, a fresh state gives {want!r:.120}", {"check": PID, "sub": "history", "history": hist})
+                    return n
+    return n
+
+
 def cross_version(rep, vals):
     """the other interpreter present (3.11) dumps what 3.12 loads and vice versa"""
     import pickle
@@ -271,6 +384,15 @@ def run(tier: str, only=None) -> int:
                 rep.violation("c12:stream-sequence", f"load() must consume exactly one value (up to its STOP byte): after {srepr(v, 60)} the stream is at {f.tell()} / {es.pos}, the value ends at {end}; read beyond it: {es.over}", {"check": PID, "sub": "stream"})
                 break
     rep.add_enumeration("stream-sequences", nseq, nseq)
+    # call histories: state left behind by an earlier (failing or succeeding) call must not leak into the next
+    nh = api_histories(rep, 2 if tier == "quick" else 3)
+    rep.add_enumeration("api-call-histories", nh, nh)
+    # two threads inside dumps()/loads()/dump()/load() at the same time, preempted between any two statements
+    from engine import harness
+
+    ser = harness.stmt_mask(lambda m, q, l: m == "gateway_base" and (q.startswith("_Serializer.") or q.startswith("Unserializer.") or q in ("dumps", "loads", "dump", "load")))
+    for api in ("dumps", "dump"):
+        harness.run_exploration(rep, PID, f"concapi/{api}", ConcApiScn, {"api": api}, {"ps": 0, "pl": 1, "free": 0} if tier == "quick" else {"ps": 0, "pl": 2, "free": 0}, stmt=ser, max_execs=1500000)
     # version byte
     body = R.encode([1, "x"])[1:]
     n = 0
@@ -309,5 +431,10 @@ def run(tier: str, only=None) -> int:
 def replay(path: str) -> int:
     import json
 
-    print(json.load(open(path)))
+    from engine import harness
+
+    d = json.load(open(path))
+    if "choices" in d:
+        return harness.replay_file(path, SCENARIOS, stmt_for=lambda d: harness.stmt_mask(lambda m, q, l: m == "gateway_base" and (q.startswith("_Serializer.") or q.startswith("Unserializer.") or q in ("dumps", "loads", "dump", "load"))))
+    print(d)
     return 1
